@@ -247,6 +247,19 @@ impl<'a> SemanticBuilder<'a> {
         }
     }
 
+    /// Number of columns of `line`, without its line terminator.
+    fn line_length(&self, line: u32) -> u32 {
+        let Some(range) = self.document.get_line_range(line as usize) else {
+            return 0;
+        };
+        let content = self
+            .document
+            .get_text_slice(range)
+            .trim_end_matches(['\n', '\r']);
+        let end = range.start() + TextSize::new(content.len() as u32);
+        self.document.get_col(end).unwrap_or(0) as u32
+    }
+
     fn push_data(&mut self, range: TextRange, typ: u32, modifiers: u32) {
         let position = range.start();
         if !self.seen_positions.insert(position) {
@@ -271,7 +284,7 @@ impl<'a> SemanticBuilder<'a> {
             multi_line_data.push(BasicSemanticTokenData {
                 line: start_line,
                 col: start_col,
-                length: 9999,
+                length: self.line_length(start_line).saturating_sub(start_col),
                 typ,
                 modifiers,
             });
@@ -280,7 +293,7 @@ impl<'a> SemanticBuilder<'a> {
                 multi_line_data.push(BasicSemanticTokenData {
                     line: i,
                     col: 0,
-                    length: 9999,
+                    length: self.line_length(i),
                     typ,
                     modifiers,
                 });
@@ -377,7 +390,8 @@ impl<'a> SemanticBuilder<'a> {
             }
         }
 
-        data.sort_unstable_by(|a, b| {
+        // stable: of two tokens starting at the same position the one pushed first wins
+        data.sort_by(|a, b| {
             let line1 = a.line;
             let line2 = b.line;
             if line1 == line2 {
@@ -392,7 +406,20 @@ impl<'a> SemanticBuilder<'a> {
         let mut prev_line = 0;
         let mut prev_col = 0;
 
+        let mut prev_end: Option<(u32, u32)> = None;
         for token_data in data {
+            // tokens must not overlap: drop one that starts inside the previous token
+            // (e.g. the line prefix inside a multi-line description token)
+            if let Some((line, end_col)) = prev_end
+                && token_data.line == line
+                && token_data.col < end_col
+            {
+                continue;
+            }
+            prev_end = Some((
+                token_data.line,
+                token_data.col.saturating_add(token_data.length),
+            ));
             let line_diff = token_data.line - prev_line;
             if line_diff != 0 {
                 prev_col = 0;
